@@ -80,6 +80,7 @@ def conversions(ctx, B, b, bits, light=False):
     idx = range(-n, n) if not light else sorted(set(i for i in (-n, -1, 0, n - 1, n // 2, -(n // 2) - 1) if -n <= i < n))
     for i in idx:
         ctx.eq('conv:bit(i)', call(b.bit, i), bits[i], i=i, **det)
+        ctx.eq('conv:b[i]', call(lambda: (lambda r: (r.ival, r.size, str(r)))(b[i])), (bits[i], 1, str(bits[i])), i=i, **det)
     # round trips
     same(ctx, 'rt:bytes', call(lambda: B(b.bytes(), size=n)), bits, **det)
     same(ctx, 'rt:bitlist', call(lambda: B(b.bitlist())), bits, **det)
